@@ -229,6 +229,7 @@ func work(a lib.Args) {
 	rng := lib.NewRng(a.Seed)
 	mocks := map[bool]*acc.Env{false: acc.StartMockAPI(false), true: acc.StartMockAPI(true)}
 	real := acc.StartRealRelay(rng.Bool())
+	popEnv := acc.StartMockAPI(false) // the one instance of the population history
 
 	var cases []acc.Case
 	var metas []meta
@@ -340,6 +341,33 @@ func work(a lib.Args) {
 		ops := []acc.Op{{K: "req", Req: &d0}, {K: "req", Req: &a0}, {K: "req", Req: &ld}, {K: "req", Req: &la}, {K: "req", Req: &x}, {K: "req", Req: &ld}, {K: "req", Req: &la}}
 		cases = append(cases, acc.Case{Name: name, T0: now, Ops: ops, Cfg: e.Cfg, Mode: "mock"})
 		metas = append(metas, meta{kind: "lists", x: 4, class: class, before: []int{2, 3}, after: []int{5, 6}})
+		n++
+	}
+
+	// the JOSE header x signing-key dimension: exact scope, valid claims; only the key decides
+	genHeaderKey := func(r *lib.Rng, rt string, hv acc.HeaderVariant, kv acc.KeyVariant) {
+		e := mocks[r.Bool()]
+		now := int64(1600000000 + r.Intn(200000000))
+		name := "c09-" + strconv.Itoa(n)
+		adm := acc.ScopeBearer(e.Cfg.Host, now, []string{"relay:admin"})
+		bkD, bkA := "den-"+name, "alw-"+name
+		scope := "relay:admin"
+		if rt == "status" {
+			scope = "relay:stats"
+		}
+		auth := acc.WithHeaderKey(acc.ScopeBearer(e.Cfg.Host, now, []string{scope}), hv, kv, e.Secret)
+		target := bkA
+		if rt == "allow" {
+			target = bkD
+		}
+		x := mkReq(rt, auth, target, now+300)
+		ld := mkReq("listdeny", adm, "", 0)
+		la := mkReq("listallow", adm, "", 0)
+		d0 := mkReq("deny", adm, bkD, now+1000)
+		a0 := mkReq("allow", adm, bkA, now+1000)
+		ops := []acc.Op{{K: "req", Req: &d0}, {K: "req", Req: &a0}, {K: "req", Req: &ld}, {K: "req", Req: &la}, {K: "req", Req: &x}, {K: "req", Req: &ld}, {K: "req", Req: &la}}
+		cases = append(cases, acc.Case{Name: name, T0: now, Ops: ops, Cfg: e.Cfg, Mode: "mock"})
+		metas = append(metas, meta{kind: "lists", x: 4, class: "exact-scope", before: []int{2, 3}, after: []int{5, 6}})
 		n++
 	}
 
@@ -462,8 +490,36 @@ func work(a lib.Args) {
 				}
 			}
 		}
+		{
+			k := 0
+			kvs := acc.KeyVariants()
+			for _, hv := range acc.HeaderVariants() {
+				for ki, kv := range kvs {
+					if hv.KidFam && kv.Label == "empty-key" { // the key-id family with the empty key: on every endpoint
+						for _, rt := range endpoints {
+							genHeaderKey(rng.Fork(), rt, hv, kv)
+						}
+						continue
+					}
+					if ki > 1 && (k+ki)%3 != 0 { // the other wrong keys: a third of the pairs
+						continue
+					}
+					genHeaderKey(rng.Fork(), endpoints[k%len(endpoints)], hv, kv)
+					k++
+				}
+			}
+		}
 		for i := 0; i < a.Pick(40, 400); i++ {
 			genBystander(rng.Fork())
+		}
+		// the population history on its own instance (never reset)
+		{
+			pcs, psteps := genPopulation(rng.Fork(), popEnv, a.Pick(2600, 9000), 40, n)
+			for k := range pcs {
+				cases = append(cases, pcs[k])
+				metas = append(metas, meta{kind: "history", steps: psteps[k], class: "population"})
+				n++
+			}
 		}
 		// stateful histories on the admin / status endpoints: the same bearer strings (admin, stats, both,
 		// look-alike; long-lived, expiring, not yet valid) presented again after clock moves, exact repeats
@@ -488,17 +544,27 @@ func work(a lib.Args) {
 		c := &cases[i]
 		if c.Mode == "mock" {
 			e := mocks[c.Cfg.AE]
+			population := len(c.Tags) > 0 && c.Tags[0] == "population"
+			if population {
+				e = popEnv
+			}
 			if c.Cfg.Host != e.Cfg.Host {
 				c.Rebase(e) // generated for an instance that has been replaced since
 			}
-			e.ResetStores()
+			if !population {
+				e.ResetStores()
+			}
 			acc.Progress(a.Out, c)
 			rn := acc.NewRunner(e, c.Name)
 			rn.StopOnHang = true
 			rn.Run(c)
 			if rn.Hung { // this instance no longer answers: later cases get a fresh one
 				res.Count("server-replaced-after-hang")
-				mocks[c.Cfg.AE] = acc.StartMockAPI(c.Cfg.AE)
+				if population {
+					popEnv = acc.StartMockAPI(false)
+				} else {
+					mocks[c.Cfg.AE] = acc.StartMockAPI(c.Cfg.AE)
+				}
 			}
 		}
 	}
@@ -588,7 +654,7 @@ func work(a lib.Args) {
 	}
 	res.CountN("retried:clock-tick", strad)
 	res.Evaluations = kept
-	if _, err := lib.WriteShards(a.Out, acc.Header("C09"), "case", coq, res.ShardSize); err != nil {
+	if err := acc.WriteShards(a.Out, "C09", coq, res.ShardSize); err != nil {
 		fmt.Fprintln(os.Stderr, err)
 		os.Exit(2)
 	}
